@@ -12,6 +12,8 @@
 
 mod common;
 mod c03;
+mod c04;
+mod c06;
 mod c11;
 
 use common::Ctx;
@@ -48,6 +50,8 @@ fn main() {
     let mut ctx = Ctx::new(&suite, &out, &tier, seed);
     match suite.as_str() {
         "c03" => c03::run(&mut ctx),
+        "c04" => c04::run(&mut ctx),
+        "c06" => c06::run(&mut ctx),
         "c11" => c11::run(&mut ctx),
         _ => {
             eprintln!("unknown suite {}", suite);
